@@ -324,7 +324,9 @@ vfps::ProgramOptions::ProgramOptions() :
  */
 bool vfps::ProgramOptions::parse(int ac, char** av)
 {
-    po::store(po::parse_command_line(ac, av, _commandlineopts), _vm);
+    // no positional options are declared: a bare word is an error, not ignored
+    po::store(po::command_line_parser(ac, av).options(_commandlineopts)
+              .positional(po::positional_options_description()).run(), _vm);
     po::notify(_vm);
 
     if (_vm.count("help")) {
